@@ -113,7 +113,7 @@ struct Stats {
     }
   }
   void write(const std::string& path) const {
-    if (path.empty()) return;
+    if (path.empty() || path.rfind("/dev/", 0) == 0) return;  // never rename() onto a device node
     std::ostringstream o;
     o << "{\n \"evaluations\": " << evaluations << ",\n \"distinct_nontrivial\": " << nontrivial.size()
       << ",\n \"exhaustive\": " << (exhaustive ? "true" : "false")
@@ -149,6 +149,7 @@ inline std::string read_file(const std::string& p) {
   std::ostringstream o; o << f.rdbuf(); return o.str();
 }
 inline void write_file(const std::string& p, const std::string& s) {
+  if (p.rfind("/dev/", 0) == 0) return;
   std::string tmp = p + ".tmp" + std::to_string(getpid());
   { std::ofstream f(tmp, std::ios::binary); f << s; }
   rename(tmp.c_str(), p.c_str());
